@@ -1,6 +1,6 @@
 (* C01 - every declared node becomes exactly one faithful row of the nodes table *)
 From Coq Require Import String Ascii List Bool Arith NArith ZArith.
-Require Import PyStr PyInt Sexp Xml M_C09 M_C08 Ns Table M_Parse T_Parse M_Write T_ParseAttrs.
+Require Import PyStr PyInt Sexp Xml M_C09 M_C08 Ns Table M_Parse T_Parse M_Write T_ParseAttrs M_Iter T_Iter.
 Import ListNotations.
 Open Scope char_scope.
 
@@ -58,6 +58,16 @@ Theorem C01_text_attribute : forall k v nsmap amap, mem_str k NODE_REF_ATTRS = f
   str_eqb k (lit "IsAbstract") || str_eqb k (lit "Symmetric") = false -> cast_attr k v nsmap amap = Ok (AStr v).
 Proof. exact cast_attr_text. Qed.
 
+(* ---- documents larger than the parser's internal batch (M_Iter.v, T_Iter.v): the event loop of iterparse_xml hands the collected node elements to
+   process_elem_batch every `batchsize` counted events.  Whatever the batch size, the batches concatenated are the collected elements in order: none
+   lost, none twice; and for the events of a document they are exactly its node elements ---- *)
+Theorem C01_batching_irrelevant : forall (A : Type) bs bs' (evs : list (event A)), concat (batches_of bs evs) = concat (batches_of bs' evs).
+Proof. intros A. exact batch_size_irrelevant. Qed.
+Theorem C01_batches_collect : forall (A : Type) bs (evs : list (event A)), concat (batches_of bs evs) = collect false evs.
+Proof. intros A. exact batches_concat. Qed.
+Theorem C01_batches_are_the_nodes : forall d bs, concat (batches_of bs (events_of_doc d)) = map Some (d_nodes d).
+Proof. exact doc_batches. Qed.
+
 Print Assumptions C01_file_rows.
 Print Assumptions C01_row_count.
 Print Assumptions C01_first_text.
@@ -69,3 +79,6 @@ Print Assumptions C01_file_attribute_columns.
 Print Assumptions C01_node_reference_attribute.
 Print Assumptions C01_boolean_attribute.
 Print Assumptions C01_text_attribute.
+Print Assumptions C01_batching_irrelevant.
+Print Assumptions C01_batches_collect.
+Print Assumptions C01_batches_are_the_nodes.
